@@ -13,7 +13,9 @@ pub struct RtErr { pub g: Ghost<int> }
 
 MODEL = r'''
 // Ghost record of one block execution: the scope-stack depth, and which statements were executed
-pub struct Rt { pub depth: Ghost<nat>, pub executed: Ghost<Set<int>>, pub hoisted: Ghost<bool>, pub frame_resets: Ghost<nat> }
+pub struct Rt { pub depth: Ghost<nat>, pub executed: Ghost<Set<int>>, pub hoisted: Ghost<bool>, pub frame_resets: Ghost<nat>,
+                // the activation marks (function id, index of its parameter scope), oldest first: Runtime::activations
+                pub acts: Ghost<Seq<(u32, nat)>> }
 // --- jasi: the frame mark of an iteration
 pub struct CondH { pub g: Ghost<int> }
 pub enum CondV { Bool(bool), Null, Other }
@@ -41,23 +43,31 @@ impl Lp {
         requires old(self).has_frame, old(self).mark@.contains(offset)
         ensures final(self).mark@ == old(self).mark@, final(self).resets@ == old(self).resets@ + 1, final(self).has_frame == old(self).has_frame, final(self).bodies@ == old(self).bodies@, final(self).conds@ == old(self).conds@, final(self).resets_at_body_end@ == old(self).resets_at_body_end@ { unimplemented!() }
 }
-pub struct FuncDef { pub body: BlockH }
+pub struct FuncDef { pub body: BlockH, pub id: Option<u32> }
 impl Rt {
     // running a function body: by the resolver's rule (comot/next cannot leave a function: K:resolver:check_function_body__contract,
     // K:resolver:control_flow_statements__leaf_rules) its flow is never Break / LoopContinue
     #[verifier::external_body]
     pub fn exec_function_body(&mut self, b: &BlockH) -> (r: Result<ExecFlow, RtErr>)
-        ensures final(self).depth@ == old(self).depth@, final(self).frame_resets@ == old(self).frame_resets@, r is Ok ==> (r->Ok_0 is Continue || r->Ok_0 is Return)
+        ensures final(self).depth@ == old(self).depth@, final(self).frame_resets@ == old(self).frame_resets@, final(self).acts@ == old(self).acts@, r is Ok ==> (r->Ok_0 is Continue || r->Ok_0 is Return)
     { unimplemented!() }
     // relocate_return_value: resets the frame to the mark (unit residence)
     #[verifier::external_body]
-    pub fn relocate_return_value(&mut self, v: ValueH, offset: usize) -> (r: ValueH) ensures final(self).depth@ == old(self).depth@, final(self).frame_resets@ == old(self).frame_resets@ + 1 { unimplemented!() }
+    pub fn relocate_return_value(&mut self, v: ValueH, offset: usize) -> (r: ValueH) ensures final(self).depth@ == old(self).depth@, final(self).frame_resets@ == old(self).frame_resets@ + 1, final(self).acts@ == old(self).acts@ { unimplemented!() }
+    // self.activations.pop() / .push(..): Vec operations on the mark stack
+    #[verifier::external_body]
+    pub fn pop_activation(&mut self) ensures final(self).acts@ == (if old(self).acts@.len() > 0 { old(self).acts@.drop_last() } else { old(self).acts@ }), final(self).depth@ == old(self).depth@, final(self).frame_resets@ == old(self).frame_resets@ { unimplemented!() }
+    #[verifier::external_body]
+    pub fn push_activation(&mut self, function: u32, base: usize) ensures final(self).acts@ == old(self).acts@.push((function, base as nat)), final(self).depth@ == old(self).depth@, final(self).frame_resets@ == old(self).frame_resets@ { unimplemented!() }
+    // self.env.len()
+    #[verifier::external_body]
+    pub fn env_len(&self) -> (r: usize) ensures r == self.depth@ { unimplemented!() }
     pub uninterp spec fn pruned(&self, s: int) -> bool;                 // the optimisation plan says this statement is removable
     #[verifier::external_body]
     pub fn push_scope(&mut self) ensures final(self).depth@ == old(self).depth@ + 1, final(self).executed@ == old(self).executed@, final(self).hoisted@ == old(self).hoisted@,
         forall|s: int| final(self).pruned(s) == old(self).pruned(s) { unimplemented!() }
     #[verifier::external_body]
-    pub fn pop_scope(&mut self) requires old(self).depth@ > 0 ensures final(self).depth@ == old(self).depth@ - 1, final(self).frame_resets@ == old(self).frame_resets@, final(self).executed@ == old(self).executed@, final(self).hoisted@ == old(self).hoisted@,
+    pub fn pop_scope(&mut self) requires old(self).depth@ > 0 ensures final(self).depth@ == old(self).depth@ - 1, final(self).frame_resets@ == old(self).frame_resets@, final(self).acts@ == old(self).acts@, final(self).executed@ == old(self).executed@, final(self).hoisted@ == old(self).hoisted@,
         forall|s: int| final(self).pruned(s) == old(self).pruned(s) { unimplemented!() }
     // functions of the block are visible before its first statement runs
     #[verifier::external_body]
@@ -114,14 +124,27 @@ UNIT = VUnit(
         Block("call_epilogue", within="eval_function_call", impl="impl Runtime", arm=True,
               anchor=r"param_scope\.push\(LocalSlot \{ id: maybe_local, name: param, value: arg \}\);\s*\}",
               sig="fn call_epilogue(me: &mut Rt, func_def: &FuncDef, frame_offset: Option<usize>) -> (res: Result<ValueH, RtErr>)",
-              requires=["old(me).depth@ > 0"],
+              requires=["old(me).depth@ > 0", "func_def.id is Some ==> old(me).acts@.len() > 0"],
               ensures=["final(me).depth@ == old(me).depth@ - 1",
+                       # the mark of this activation (pushed by call_prologue iff the function has an id) is removed whatever the body did,
+                       # and no other mark is touched: a later lookup sees exactly the activations that are still live
+                       "final(me).acts@ == (if func_def.id is Some { old(me).acts@.drop_last() } else { old(me).acts@ })",
                        "res is Ok ==> final(me).frame_resets@ == old(me).frame_resets@ + (if frame_offset is Some { 1int } else { 0int })"],
               rewrites=[Rw("R9", r"self\.exec_block_with_flow\(func_def\.body\)", "me.exec_function_body(&func_def.body)", min_matches=1),
                         Rw("R8", r"self\.pop_scope\(\)", "me.pop_scope()", min_matches=1),
+                        Rw("R8", r"self\.activations\.pop\(\);", "me.pop_activation();", min_matches=1),
                         Rw("R8", r"Value::Null", "null_value()", min_matches=1),
                         Rw("R9", r"self\.relocate_return_value\(", "me.relocate_return_value(", min_matches=1)],
               real_name="Runtime::eval_function_call (after argument binding: body, scope, return value)"),
+        # the head of a user-function call: the activation mark that is pushed names this function and the parameter scope that was
+        # opened just before it (the newest scope), so a lookup that stops at this mark sees this activation's scopes and no older one
+        Block("call_prologue", within="eval_function_call", impl="impl Runtime",
+              anchor=r"self\.push_scope_with_capacity\(func_def\.params\.params\.len\(\), self\.frame\);\s*if let Some\(function_id\) = func_def\.id",
+              sig="fn call_prologue(me: &mut Rt, function_id: u32)",
+              requires=["old(me).depth@ > 0", "old(me).depth@ < usize::MAX"],
+              ensures=["final(me).acts@ == old(me).acts@.push((function_id, (old(me).depth@ - 1) as nat))", "final(me).depth@ == old(me).depth@"],
+              rewrites=[Rw("R8", r"self\.activations\.push\(\(function_id, self\.env\.len\(\) - 1\)\);", "let n = me.env_len(); me.push_activation(function_id, n - 1);", min_matches=1)],
+              real_name="Runtime::eval_function_call (activation mark pushed right after the parameter scope)"),
         # jasi: each round evaluates the condition first; a non-boolean condition is a reported type mismatch; with a frame arena the frame
         # is reset only at the END of a round that completed normally or with `next`, and only to a mark this loop statement took itself
         # (so nothing allocated before the loop is ever reclaimed); `comot` and `return` leave without a reset
